@@ -452,7 +452,7 @@ pub fn unescape(line: &str) -> Option<String> {
     Some(out)
 }
 
-fn free_port() -> u16 {
+fn free_port() -> crate::engine::realbin::PortLease {
     crate::engine::realbin::free_port()
 }
 
@@ -521,7 +521,9 @@ fn run_writer(texts: &[Vec<u8>], tcp: bool, incoming: &[u8]) -> Result<(Vec<Stri
         h.join().map_err(|_| "thread".to_string())??;
         return Ok((out_rx.try_iter().collect(), vec![]));
     }
-    let port = free_port();
+    // the port stays reserved until this function returns (the emulator thread has been joined by then)
+    let lease = free_port();
+    let port = lease.port;
     let addr = format!("127.0.0.1:{}", port);
     let addr2 = addr.clone();
     let h = std::thread::spawn(move || -> Result<(), String> {
@@ -541,10 +543,16 @@ fn run_writer(texts: &[Vec<u8>], tcp: bool, incoming: &[u8]) -> Result<(Vec<Stri
     let start = Instant::now();
     let mut stream = loop {
         match std::net::TcpStream::connect(&addr) {
+            Ok(s) if crate::engine::realbin::self_connected(&s) => {
+                lease.leak();
+                return Err(format!("{}the connection to port {} is connected to itself", INFRA, port));
+            }
             Ok(s) => break s,
             Err(_) if start.elapsed() < Duration::from_secs(10) && !h.is_finished() => std::thread::sleep(Duration::from_millis(2)),
             Err(e) => {
-                let why = h.join().ok().and_then(|r| r.err()).unwrap_or_default();
+                // a thread that still waits in accept() is left behind (joining it would wait for ever)
+                let why = if h.is_finished() { h.join().ok().and_then(|r| r.err()).unwrap_or_default() } else { String::new() };
+                lease.leak();
                 return Err(format!("{}cannot connect to the emulator's control socket: {} {}", INFRA, e, why));
             }
         }
@@ -560,7 +568,10 @@ fn run_writer(texts: &[Vec<u8>], tcp: bool, incoming: &[u8]) -> Result<(Vec<Stri
             Ok(0) => break,
             Ok(n) => wire.extend_from_slice(&buf[..n]),
             // 30 s without a byte and without a close: the rig is stuck (or the emulator hangs): not a verdict
-            Err(e) => return Err(format!("{}reading from the control socket: {}", INFRA, e)),
+            Err(e) => {
+                lease.leak();
+                return Err(format!("{}reading from the control socket: {}", INFRA, e));
+            }
         }
     }
     h.join().map_err(|_| "thread".to_string())??;
@@ -624,7 +635,9 @@ pub fn judge_tcp_lines(lines: &[String], chunk_seed: u32) -> Result<(), String> 
     for l in lines {
         m.apply(l);
     }
-    let port = free_port();
+    // the port stays reserved until this function returns; where the emulator thread is left behind, for good
+    let lease = free_port();
+    let port = lease.port;
     let addr = format!("127.0.0.1:{}", port);
     let addr2 = addr.clone();
     let h = std::thread::spawn(move || -> Result<FinalState, String> {
@@ -657,10 +670,16 @@ pub fn judge_tcp_lines(lines: &[String], chunk_seed: u32) -> Result<(), String> 
     let start = Instant::now();
     let mut stream = loop {
         match std::net::TcpStream::connect(&addr) {
+            Ok(s) if crate::engine::realbin::self_connected(&s) => {
+                lease.leak();
+                return Err(format!("{}the connection to port {} is connected to itself", INFRA, port));
+            }
             Ok(s) => break s,
             Err(_) if start.elapsed() < Duration::from_secs(10) && !h.is_finished() => std::thread::sleep(Duration::from_millis(2)),
             Err(e) => {
-                let why = h.join().ok().and_then(|r| r.err()).unwrap_or_default();
+                // a thread that still waits in accept() is left behind (joining it would wait for ever)
+                let why = if h.is_finished() { h.join().ok().and_then(|r| r.err()).unwrap_or_default() } else { String::new() };
+                lease.leak();
                 return Err(format!("{}cannot connect: {} {}", INFRA, e, why));
             }
         }
@@ -669,7 +688,7 @@ pub fn judge_tcp_lines(lines: &[String], chunk_seed: u32) -> Result<(), String> 
     // processes (and anything else on the machine) use loopback ports too; a connection that ends up in the backlog
     // of a listener that already has its client, or at somebody else's listener, must be an inconclusive rig
     // failure, not a 120 s wait. The guest echoes the flag byte to port B: one `u8:` line, one `ioport:b:` message.
-    {
+    let handshake = (|| -> Result<(), String> {
         let _ = stream.set_read_timeout(Some(Duration::from_millis(100)));
         if stream.write_all(format!("u8:{:x}:5c\n", FLAG).as_bytes()).is_err() {
             return Err(format!("{}the control connection broke during the handshake", INFRA));
@@ -687,8 +706,9 @@ pub fn judge_tcp_lines(lines: &[String], chunk_seed: u32) -> Result<(), String> 
             if got.windows(12).any(|w| w == b"ioport:b:5c:") {
                 break;
             }
-            // The listener on this port is this case's emulator (it bound the port), and a peer it did not accept is
-            // reset when the listener goes away - so `sync:` messages arriving on this very stream prove that the
+            // The listener on this port is this case's emulator (the port is leased to this case alone, see
+            // `PortLease`, and the emulator bound it - otherwise it would have failed with an INFRASTRUCTURE error), and a
+            // peer it did not accept is reset when the listener goes away - so `sync:` messages arriving on this very stream prove that the
             // connection leads to this case's running emulator. If it runs on for 60 sync periods (120 million
             // states; the guest polls the flag every few instructions) without acting on the line, it is deaf:
             // that is a verdict, not a rig failure.
@@ -701,8 +721,14 @@ pub fn judge_tcp_lines(lines: &[String], chunk_seed: u32) -> Result<(), String> 
                 return Err(format!("{}no echo of the handshake within 20 s: the connection on port {} does not lead to this case's emulator", INFRA, port));
             }
         }
-        m.apply(&format!("u8:{:x}:5c", FLAG));
+        Ok(())
+    })();
+    if let Err(e) = handshake {
+        // the emulator thread is left behind (it ends with the process); its port is never handed out again
+        lease.leak();
+        return Err(e);
     }
+    m.apply(&format!("u8:{:x}:5c", FLAG));
     let mut bytes: Vec<u8> = vec![];
     for l in lines {
         bytes.extend(wire_bytes(l));
@@ -773,6 +799,7 @@ pub fn judge_tcp_lines(lines: &[String], chunk_seed: u32) -> Result<(), String> 
     if deaf {
         // the emulator thread cannot be stopped through the socket any more: leave it behind (it ends with the process)
         drop(stream);
+        lease.leak();
         return Err(format!("neither the final cmd:stop nor the probe lines sent over TCP were acted on although the run loop kept running ({} sync messages later): the lines after some earlier line are lost", syncs_after_probe));
     }
     if stop_ignored {
@@ -806,7 +833,7 @@ pub fn judge_real_tcp(bin: &std::path::PathBuf, g: &super::c13::Guest, tag: &str
         Err(RealErr::Inconclusive(m)) => return Err(m),
     };
     if out.lines.first().map(|s| s.as_str()) != Some("ready") {
-        return Ok(Err(format!("real binary over TCP (-s -w): the first line is {:?}, not `ready`", out.lines.first())));
+        return Ok(Err(format!("real binary over TCP (-s -w): the first line is {:?}, not `ready` (process status {:?}; last lines of its stderr: {:?})", out.lines.first(), out.status, out.stderr.lines().rev().take(4).collect::<Vec<_>>())));
     }
     let got: Vec<String> = out.lines[1..].iter().map(|l| unescape(l)).collect();
     if got != f.msgs {
